@@ -27,6 +27,13 @@
   * `u_checked_neg_proj`: `BUint::checked_neg` is written `if self.is_zero() {Some(self)} else {None}`
       (and modelled so); it equals the projection of `overflowing_neg`.
 
+  * projections    : `checked_forms_are_projections`, `strict_forms_are_projections`, `wrapping_forms_are_projections`,
+      `u_saturating_forms_are_projections`, `i_saturating_forms_are_projections` state literally that each derived
+      form is a function of the `overflowing_*` pair; `u_strict_neg_proj`, `i_wrapping_add_proj`,
+      `i_wrapping_sub_proj` are the cases where the code takes another route (Lemmas/C01Extra.lean).
+  * sides          : `i_saturating_add_unsigned_side`, `i_saturating_sub_unsigned_side`, `i_saturating_neg_abs_side`,
+      `u_saturating_add_signed_side` — the fixed / rhs-sign-picked bound is the side where the exact result lies.
+
   * midpoint       : `u_midpoint_spec`, `i_midpoint_spec` — in debug and in release builds (`dbg`) the
       function never panics/overflows; value = floor((a+b)/2) for BUint, (a+b)/2 rounded toward zero
       (`Int.tdiv`) for BInt.  (Model/Misc.lean; needs `2 ≤ w` so that `shr(1)` is in range.)
@@ -38,6 +45,7 @@
 -/
 import Bnum.Lemmas.AddSub2
 import Bnum.Lemmas.Misc
+import Bnum.Lemmas.C01Extra
 
 namespace Bnum.C01
 open Bnum
@@ -582,5 +590,177 @@ theorem u_checked_neg_proj {w n : Nat} {a : List Nat} (hw : 1 ≤ w) (hn : 1 ≤
     UI.checkedNeg w a = tupleToOption (UI.overflowingNeg w a) :=
   UI.checkedNeg_eq_proj hw hn ha
 example : 1 ≤ 8 ∧ 1 ≤ 3 ∧ WF 8 3 [0, 0, 0] ∧ UI.checkedNeg 8 [0, 0, 0] = some [0, 0, 0] := by decide
+
+
+/-! ## "The checked, wrapping, saturating and strict forms are projections of that pair" — stated literally
+
+The theorems above characterise every form directly against the exact result; the ones below state the
+relation between the forms themselves: each derived form is a function of the `overflowing_*` pair only
+(`tuple_to_option`, `.0`, `expect`, flag-selected bound).  Most hold by the way the code (and so the model)
+is written; `BUint::checked_neg` / `strict_neg` (written with `is_zero`) and `BInt::wrapping_add` /
+`wrapping_sub` (computed by the unsigned adder on the bit patterns, not by the signed loop) need a proof. -/
+
+/-- every `checked_*` form is `tuple_to_option` of its `overflowing_*` pair
+    (`BUint::checked_neg`: `u_checked_neg_proj`) -/
+theorem checked_forms_are_projections (w : Nat) (a b : List Nat) :
+    UI.checkedAdd w a b = tupleToOption (UI.overflowingAdd w a b) ∧
+    UI.checkedSub w a b = tupleToOption (UI.overflowingSub w a b) ∧
+    UI.checkedAddSigned w a b = tupleToOption (UI.overflowingAddSigned w a b) ∧
+    II.checkedAdd w a b = tupleToOption (II.overflowingAdd w a b) ∧
+    II.checkedSub w a b = tupleToOption (II.overflowingSub w a b) ∧
+    II.checkedAddUnsigned w a b = tupleToOption (II.overflowingAddUnsigned w a b) ∧
+    II.checkedSubUnsigned w a b = tupleToOption (II.overflowingSubUnsigned w a b) ∧
+    II.checkedNeg w a = tupleToOption (II.overflowingNeg w a) ∧
+    II.checkedAbs w a = tupleToOption (II.overflowingAbs w a) :=
+  ⟨rfl, rfl, rfl, rfl, rfl, rfl, rfl, rfl, rfl⟩
+example : II.checkedAdd 8 [255, 255, 127] [5, 0, 0] = none ∧
+    II.overflowingAdd 8 [255, 255, 127] [5, 0, 0] = ([4, 0, 128], true) ∧
+    UI.checkedSub 8 [200, 7, 255] [100, 250, 3] = some [100, 13, 251] := by decide
+
+/-- every `strict_*` form is `expect` (panic on `None`) of `tuple_to_option` of its `overflowing_*` pair
+    (`BUint::strict_neg`: `u_strict_neg_proj`) -/
+theorem strict_forms_are_projections (w : Nat) (a b : List Nat) :
+    UI.strictAdd w a b = Outcome.expect (tupleToOption (UI.overflowingAdd w a b)) ∧
+    UI.strictSub w a b = Outcome.expect (tupleToOption (UI.overflowingSub w a b)) ∧
+    UI.strictAddSigned w a b = Outcome.expect (tupleToOption (UI.overflowingAddSigned w a b)) ∧
+    II.strictAdd w a b = Outcome.expect (tupleToOption (II.overflowingAdd w a b)) ∧
+    II.strictSub w a b = Outcome.expect (tupleToOption (II.overflowingSub w a b)) ∧
+    II.strictAddUnsigned w a b = Outcome.expect (tupleToOption (II.overflowingAddUnsigned w a b)) ∧
+    II.strictSubUnsigned w a b = Outcome.expect (tupleToOption (II.overflowingSubUnsigned w a b)) ∧
+    II.strictNeg w a = Outcome.expect (tupleToOption (II.overflowingNeg w a)) ∧
+    II.strictAbs w a = Outcome.expect (tupleToOption (II.overflowingAbs w a)) :=
+  ⟨rfl, rfl, rfl, rfl, rfl, rfl, rfl, rfl, rfl⟩
+example : II.strictAdd 8 [255, 255, 127] [5, 0, 0] = Outcome.panic ∧
+    II.strictNeg 8 [0, 0, 128] = Outcome.panic ∧ II.strictAbs 8 [200, 7, 255] = Outcome.ok [56, 248, 0] := by
+  decide
+
+/-- `BUint::strict_neg` (through the `is_zero` form of `checked_neg`) is the projection of `overflowing_neg` -/
+theorem u_strict_neg_proj {w n : Nat} {a : List Nat} (hw : 1 ≤ w) (hn : 1 ≤ n) (ha : WF w n a) :
+    UI.strictNeg w a = Outcome.expect (tupleToOption (UI.overflowingNeg w a)) := by
+  unfold UI.strictNeg; rw [UI.checkedNeg_eq_proj hw hn ha]
+example : 1 ≤ 8 ∧ 1 ≤ 3 ∧ WF 8 3 [1, 0, 0] ∧ UI.strictNeg 8 [1, 0, 0] = Outcome.panic ∧
+    UI.overflowingNeg 8 [1, 0, 0] = ([255, 255, 255], true) := by decide
+
+/-- every `wrapping_*` form is the `.0` of its `overflowing_*` pair
+    (`BInt::wrapping_add` / `wrapping_sub`: `i_wrapping_add_proj` / `i_wrapping_sub_proj`) -/
+theorem wrapping_forms_are_projections (w : Nat) (a b : List Nat) :
+    UI.wrappingAdd w a b = (UI.overflowingAdd w a b).1 ∧
+    UI.wrappingSub w a b = (UI.overflowingSub w a b).1 ∧
+    UI.wrappingNeg w a = (UI.overflowingNeg w a).1 ∧
+    UI.wrappingAddSigned w a b = (UI.overflowingAddSigned w a b).1 ∧
+    II.wrappingAddUnsigned w a b = (II.overflowingAddUnsigned w a b).1 ∧
+    II.wrappingSubUnsigned w a b = (II.overflowingSubUnsigned w a b).1 ∧
+    II.wrappingNeg w a = (II.overflowingNeg w a).1 ∧
+    II.wrappingAbs w a = (II.overflowingAbs w a).1 :=
+  ⟨rfl, rfl, rfl, rfl, rfl, rfl, rfl, rfl⟩
+example : UI.wrappingAdd 8 [200, 7, 255] [100, 250, 3] = [44, 2, 3] ∧
+    II.wrappingAbs 8 [0, 0, 128] = [0, 0, 128] := by decide
+
+/-- `BInt::wrapping_add` is computed as `from_bits(self.bits.wrapping_add(rhs.bits))` — by the unsigned adder —
+    and is nevertheless exactly the `.0` of `BInt::overflowing_add` (computed by the signed loop) -/
+theorem i_wrapping_add_proj {w n : Nat} {a b : List Nat} (hw : 2 ≤ w) (hn : 1 ≤ n)
+    (ha : WF w n a) (hb : WF w n b) :
+    II.wrappingAdd w a b = (II.overflowingAdd w a b).1 := II.wrappingAdd_eq_proj hw hn ha hb
+example : 2 ≤ 8 ∧ 1 ≤ 3 ∧ WF 8 3 [255, 255, 127] ∧ WF 8 3 [5, 0, 0] ∧
+    II.wrappingAdd 8 [255, 255, 127] [5, 0, 0] = [4, 0, 128] ∧
+    (II.overflowingAdd 8 [255, 255, 127] [5, 0, 0]).1 = [4, 0, 128] := by decide
+
+/-- same for `BInt::wrapping_sub` -/
+theorem i_wrapping_sub_proj {w n : Nat} {a b : List Nat} (hw : 2 ≤ w) (hn : 1 ≤ n)
+    (ha : WF w n a) (hb : WF w n b) :
+    II.wrappingSub w a b = (II.overflowingSub w a b).1 := II.wrappingSub_eq_proj hw hn ha hb
+example : 2 ≤ 8 ∧ 1 ≤ 3 ∧ WF 8 3 [0, 0, 128] ∧ WF 8 3 [5, 0, 0] ∧
+    II.wrappingSub 8 [0, 0, 128] [5, 0, 0] = [251, 255, 127] ∧
+    (II.overflowingSub 8 [0, 0, 128] [5, 0, 0]).1 = [251, 255, 127] := by decide
+
+/-- unsigned `saturating_*`: the bound (MAX = all ones, MIN = zero) when the flag of the pair is set, else its value;
+    for `saturating_add_signed` the bound is picked by the sign of `rhs` -/
+theorem u_saturating_forms_are_projections (w : Nat) (a b : List Nat) :
+    UI.saturatingAdd w a b =
+      (if (UI.overflowingAdd w a b).2 then allOnes w a.length else (UI.overflowingAdd w a b).1) ∧
+    UI.saturatingSub w a b =
+      (if (UI.overflowingSub w a b).2 then zero a.length else (UI.overflowingSub w a b).1) ∧
+    UI.saturatingAddSigned w a b =
+      (if (UI.overflowingAddSigned w a b).2 then (if isNegative w b then zero a.length else allOnes w a.length)
+       else (UI.overflowingAddSigned w a b).1) := by
+  refine ⟨rfl, rfl, ?_⟩
+  unfold UI.saturatingAddSigned UI.saturateDown UI.saturateUp
+  cases isNegative w b <;> cases (UI.overflowingAddSigned w a b).2 <;> rfl
+example : UI.saturatingAdd 8 [200, 7, 255] [100, 250, 3] = [255, 255, 255] ∧
+    UI.saturatingAddSigned 8 [5, 0, 0] [200, 7, 255] = [0, 0, 0] := by decide
+
+/-- signed `saturating_*`: MIN / MAX (picked by the sign of `self`, or fixed) when the flag of the pair is set,
+    else its value -/
+theorem i_saturating_forms_are_projections (w : Nat) (a b : List Nat) :
+    II.saturatingAdd w a b =
+      (if (II.overflowingAdd w a b).2 then (if isNegative w a then iMin w a.length else iMax w a.length)
+       else (II.overflowingAdd w a b).1) ∧
+    II.saturatingSub w a b =
+      (if (II.overflowingSub w a b).2 then (if isNegative w a then iMin w a.length else iMax w a.length)
+       else (II.overflowingSub w a b).1) ∧
+    II.saturatingAddUnsigned w a b =
+      (if (II.overflowingAddUnsigned w a b).2 then iMax w a.length else (II.overflowingAddUnsigned w a b).1) ∧
+    II.saturatingSubUnsigned w a b =
+      (if (II.overflowingSubUnsigned w a b).2 then iMin w a.length else (II.overflowingSubUnsigned w a b).1) ∧
+    II.saturatingNeg w a =
+      (if (II.overflowingNeg w a).2 then iMax w a.length else (II.overflowingNeg w a).1) ∧
+    II.saturatingAbs w a =
+      (if (II.overflowingAbs w a).2 then iMax w a.length else (II.overflowingAbs w a).1) := by
+  refine ⟨?_, ?_, ?_, ?_, ?_, ?_⟩
+  · unfold II.saturatingAdd II.checkedAdd tupleToOption
+    cases (II.overflowingAdd w a b).2 <;> rfl
+  · unfold II.saturatingSub II.checkedSub tupleToOption
+    cases (II.overflowingSub w a b).2 <;> rfl
+  · unfold II.saturatingAddUnsigned II.checkedAddUnsigned tupleToOption
+    cases (II.overflowingAddUnsigned w a b).2 <;> rfl
+  · unfold II.saturatingSubUnsigned II.checkedSubUnsigned tupleToOption
+    cases (II.overflowingSubUnsigned w a b).2 <;> rfl
+  · unfold II.saturatingNeg II.checkedNeg tupleToOption
+    cases (II.overflowingNeg w a).2 <;> rfl
+  · unfold II.saturatingAbs II.checkedAbs tupleToOption
+    cases (II.overflowingAbs w a).2 <;> rfl
+example : II.saturatingAdd 8 [0, 0, 128] [200, 7, 255] = [0, 0, 128] ∧
+    II.saturatingSubUnsigned 8 [200, 7, 255] [200, 7, 255] = [0, 0, 128] ∧
+    II.saturatingNeg 8 [0, 0, 128] = [255, 255, 127] := by decide
+
+/-! ## the side of the remaining saturating forms ("clamp to MIN or MAX on the side where the exact result lies")
+
+`i_saturating_add_side` / `i_saturating_sub_side` above cover the forms whose bound depends on the sign of `self`;
+the forms below use a fixed bound (or, for `BUint::saturating_add_signed`, the sign of `rhs`). -/
+
+/-- `BInt::saturating_add_unsigned` clamps to MAX: an unrepresentable `self + rhs` (`rhs` unsigned) lies above MAX -/
+theorem i_saturating_add_unsigned_side {w n : Nat} {a b : List Nat} (hw : 1 ≤ w) (hn : 1 ≤ n)
+    (ha : WF w n a) (hov : ¬ repS (M w n) (S w a + (U w b : Int))) :
+    (M w n : Int) ≤ 2 * (S w a + (U w b : Int)) :=
+  II.addUnsigned_overflow_side hw hn ha hov
+example : 1 ≤ 8 ∧ 1 ≤ 3 ∧ WF 8 3 [5, 0, 0] ∧
+    ¬ repS (M 8 3) (S 8 [5, 0, 0] + (U 8 [200, 7, 255] : Int)) := by decide
+
+/-- `BInt::saturating_sub_unsigned` clamps to MIN: an unrepresentable `self - rhs` (`rhs` unsigned) lies below MIN -/
+theorem i_saturating_sub_unsigned_side {w n : Nat} {a b : List Nat} (hw : 1 ≤ w) (hn : 1 ≤ n)
+    (ha : WF w n a) (hov : ¬ repS (M w n) (S w a - (U w b : Int))) :
+    2 * (S w a - (U w b : Int)) < -(M w n : Int) :=
+  II.subUnsigned_overflow_side hw hn ha hov
+example : 1 ≤ 8 ∧ 1 ≤ 3 ∧ WF 8 3 [200, 7, 255] ∧
+    ¬ repS (M 8 3) (S 8 [200, 7, 255] - (U 8 [200, 7, 255] : Int)) := by decide
+
+/-- `BInt::saturating_neg` / `saturating_abs` clamp to MAX: an unrepresentable `-self` / `|self|` lies above MAX -/
+theorem i_saturating_neg_abs_side {w n : Nat} {a : List Nat} (hw : 1 ≤ w) (hn : 1 ≤ n)
+    (ha : WF w n a) :
+    (¬ repS (M w n) (-S w a) → (M w n : Int) ≤ 2 * (-S w a)) ∧
+    (¬ repS (M w n) ((S w a).natAbs : Int) → (M w n : Int) ≤ 2 * ((S w a).natAbs : Int)) :=
+  II.neg_overflow_side hw hn ha
+example : 1 ≤ 8 ∧ 1 ≤ 3 ∧ WF 8 3 [0, 0, 128] ∧ ¬ repS (M 8 3) (-S 8 [0, 0, 128]) ∧
+    ¬ repS (M 8 3) ((S 8 [0, 0, 128]).natAbs : Int) := by decide
+
+/-- `BUint::saturating_add_signed` picks 0 when `rhs` is negative and MAX otherwise: an unrepresentable
+    `self + rhs` lies below 0 in the first case and above MAX in the second -/
+theorem u_saturating_add_signed_side {w n : Nat} {a b : List Nat} (hw : 1 ≤ w) (hn : 1 ≤ n)
+    (ha : WF w n a) (hb : WF w n b) (hov : ¬ repU (M w n) ((U w a : Int) + S w b)) :
+    (isNegative w b = true → (U w a : Int) + S w b < 0) ∧
+    (isNegative w b = false → (M w n : Int) ≤ (U w a : Int) + S w b) :=
+  UI.addSigned_overflow_side hw hn ha hb hov
+example : 1 ≤ 8 ∧ 1 ≤ 3 ∧ WF 8 3 [5, 0, 0] ∧ WF 8 3 [200, 7, 255] ∧
+    ¬ repU (M 8 3) ((U 8 [5, 0, 0] : Int) + S 8 [200, 7, 255]) := by decide
 
 end Bnum.C01
